@@ -182,6 +182,10 @@ type Exec struct {
 	heapGo    map[string]types.Type
 	ixSeen    map[string]bool
 	typedKeys map[string]bool
+	topTsub   map[*types.TypeParam]types.Type
+	instName  string
+	wrap64    bool
+	allowHeapClosure bool
 	inGoal    int
 	goalIx    []string
 	topTargets []modTarget
@@ -208,7 +212,7 @@ func (ex *Exec) oblige(st *State, kind string, props []string, goal, desc string
 		// still counted: trivially discharged
 	}
 	ex.count[kind]++
-	name := fmt.Sprintf("%s#%s[%d]", ex.top.FullName(), kind, ex.count[kind]-1)
+	name := fmt.Sprintf("%s%s#%s[%d]", ex.top.FullName(), ex.instName, kind, ex.count[kind]-1)
 	if props == nil {
 		props = ex.curProps
 	}
@@ -365,6 +369,11 @@ func refLike(t types.Type) bool {
 
 func (ex *Exec) typeInvWith(alloc, arralloc string, v Val) string {
 	switch v.S.Kind {
+	case KInt:
+		if lo, hi, ok := ex.intRange(v.Go); ok {
+			return fmt.Sprintf("(and (<= %s %s) (<= %s %s))", lo, v.T, v.T, hi)
+		}
+		return "true"
 	case KRef:
 		if refLike(v.Go) {
 			return sOr(sEq(v.T, "nil"), sSel(alloc, v.T))
@@ -426,4 +435,37 @@ func (ex *Exec) zeroRow(es *Sort) string {
 		ex.w.axioms = append(ex.w.axioms, fmt.Sprintf("(forall ((k Int)) (! (= (select %s k) %s) :pattern ((select %s k))))", n, ex.w.zero(es), n))
 	}
 	return n
+}
+
+// intRange: value range of narrow integer types (and of int/int64 when the function asks for
+// exact 64-bit arithmetic with the `intwidth 64` directive).
+func (ex *Exec) intRange(t types.Type) (string, string, bool) {
+	if t == nil {
+		return "", "", false
+	}
+	b, ok := types.Unalias(t).Underlying().(*types.Basic)
+	if !ok {
+		return "", "", false
+	}
+	switch b.Kind() {
+	case types.Int8:
+		return "(- 128)", "127", true
+	case types.Int16:
+		return "(- 32768)", "32767", true
+	case types.Int32:
+		return "(- 2147483648)", "2147483647", true
+	case types.Uint8:
+		return "0", "255", true
+	case types.Uint16:
+		return "0", "65535", true
+	case types.Uint32:
+		return "0", "4294967295", true
+	case types.Uint, types.Uint64, types.Uintptr:
+		return "0", "18446744073709551615", true
+	case types.Int, types.Int64:
+		if ex.wrap64 {
+			return "(- 9223372036854775808)", "9223372036854775807", true
+		}
+	}
+	return "", "", false
 }
